@@ -299,3 +299,172 @@ Check matched_line_has_submatch :
     ev_ok find_at env (SMatched m) -> genuine find_at env m ->
     ~ EmptyMatchAtEndOfUnterminatedLastLine find_at env m ->
     0 < nsub find_at env m.
+
+(* 5d. --only-matching in a MULTI-LINE search (StandardImpl::sink_slow_multi_line_only_matching).
+       The recorded submatches are ordered and disjoint (they are the successive matches, theorem 1) ... *)
+From RG Require Import Spec.PrinterMultiLineSpec Proofs.PrinterMultiLineProofs.
+Theorem recorded_submatches_are_ordered :
+  forall find_at env buf rs re l,
+    range_ok find_at env buf re -> successive find_at env buf rs re = Some l ->
+    spans_ordered 0 (submatches_of buf rs re l).
+Proof. exact recorded_submatches_ordered. Qed.
+Print Assumptions recorded_submatches_are_ordered.
+
+(* ... and for every block and every ordered list of recorded spans the output is exactly: for every line
+   of the block in order, for every submatch in order that has at least one byte on the line's content
+   (the line without its terminator), one record showing that part.  So a submatch spanning k lines
+   gives k records (one per line it has content on), and the number of records is the sum over the
+   submatches of the number of lines they have content on (pieces_of). *)
+Theorem only_matching_multi_line_records :
+  forall cfg env path sk w,
+    st_only_matching cfg = true -> k_matches sk <> [] -> spans_ordered 0 (k_matches sk) ->
+    w_out (sink_slow_multi_line cfg env path sk w)
+    = w_out w ++ concat (om_block_records cfg env path sk (block_lines env sk) 0) /\
+    length (om_block_records cfg env path sk (block_lines env sk) 0)
+    = list_sum (map (pieces_of env sk (block_lines env sk)) (k_matches sk)).
+Proof. exact only_matching_multi_line_records_proof. Qed.
+Print Assumptions only_matching_multi_line_records.
+
+(* ... joined to the cross-mode relations: for a Matched event of a multi-line search whose matcher
+   obeys the contract, StandardSink::matched records the submatches (theorem 1), prints those records,
+   and their number is nsub (the event's share of count_submatches = what --count-matches and JSON
+   report, theorem 5) when every submatch has content on exactly one line; it is at least nsub when no
+   submatch is in the class OnlyTerminatorsOrEmpty (known finding MultiLineOnlyMatchingDropsEmptyMatches) *)
+Theorem only_matching_multi_line_event_records :
+  forall find_at cfg env path m l w,
+    e_multi env = true -> st_only_matching cfg = true ->
+    range_ok find_at env (m_buf m) (m_re m) ->
+    successive find_at env (m_buf m) (m_rs m) (m_re m) = Some l ->
+    let subs := submatches_of (m_buf m) (m_rs m) (m_re m) l in
+    let sk := sunk_of m subs in
+    let recs := om_block_records cfg env path sk (block_lines env sk) 0 in
+    subs <> [] ->
+    record_matches find_at cfg env (m_buf m) (m_rs m) (m_re m) = Some subs /\
+    w_out (impl_sink cfg env path sk w) = w_out (write_search_prelude cfg env path w) ++ concat recs /\
+    length recs = list_sum (map (pieces_of env sk (block_lines env sk)) subs) /\
+    (Forall (fun x => pieces_of env sk (block_lines env sk) x = 1) subs -> length recs = nsub find_at env m) /\
+    (Forall (fun x => ~ OnlyTerminatorsOrEmpty env sk x) subs -> nsub find_at env m <= length recs).
+Proof. exact only_matching_multi_line_event. Qed.
+Print Assumptions only_matching_multi_line_event_records.
+
+(* KNOWN FINDING MultiLineOnlyMatchingDropsEmptyMatches: without the class the count relation is false.
+   witness `printf '\n\n\n' | rg -U -o '\n'`: 3 submatches (--count-matches 3), no record at all *)
+Definition nl_find (hay : bytes) (p : nat) : option (nat * nat) :=          (* the pattern \n on "\n\n\n" *)
+  if Nat.ltb p (length hay) then Some (p, p + 1) else None.
+Definition nl3_match : sink_match := mkSM [10; 10; 10]%N 0 3 (Some 1) 0.
+Definition cfg_only : stdconfig := mkStd false false true false false None false false false None None [58]%N [45]%N None.
+Theorem only_matching_multi_line_one_record_per_submatch_refuted :
+  exists find_at env cfg m,
+    e_multi env = true /\ st_only_matching cfg = true /\ nsub find_at env m = 3 /\
+    option_map (fun r => w_out (sd_wtr (fst r)))
+      (standard_matched find_at cfg env m (standard_sink cfg None w_new)) = Some [].
+Proof. exists nl_find, ml_env, cfg_only, nl3_match. vm_compute. repeat split; reflexivity. Qed.
+Print Assumptions only_matching_multi_line_one_record_per_submatch_refuted.
+
+(* non-vacuity (replayed on the binary: printf 'abc\nde\n' | rg -U -o -n -b --column 'c\nd' prints
+   "1:3:2:c" and "2:3:2:d"): one submatch (2,5) spanning two lines gives two records, both carrying the
+   column and byte offset of the START of the submatch *)
+Definition cfg_only_nbc : stdconfig := mkStd false false true false false None true true false None None [58]%N [45]%N None.
+Definition two_line_sunk : sunk := mkSunk [97; 98; 99; 10; 100; 101; 10]%N 0 (Some 1) None [(2, 5)].
+Example only_matching_multi_line_example :
+  spans_ordered 0 (k_matches two_line_sunk) /\
+  w_out (sink_slow_multi_line cfg_only_nbc ml_env None two_line_sunk w_new)
+  = [49; 58; 51; 58; 50; 58; 99; 10;  50; 58; 51; 58; 50; 58; 100; 10]%N /\
+  pieces_of ml_env two_line_sunk (block_lines ml_env two_line_sunk) (2, 5) = 2.
+Proof. vm_compute. repeat split; lia. Qed.
+
+(* 5e. per-match (--vimgrep) records in a multi-line search: one record per line a submatch touches,
+       or per submatch that touches a line at all with per_match_one_line (what --vimgrep sets) *)
+Theorem per_match_multi_line_event_records :
+  forall find_at cfg env path m l w,
+    e_multi env = true -> st_only_matching cfg = false -> st_per_match cfg = true ->
+    successive find_at env (m_buf m) (m_rs m) (m_re m) = Some l ->
+    let subs := submatches_of (m_buf m) (m_rs m) (m_re m) l in
+    let sk := sunk_of m subs in
+    let recs := pm_block_records cfg env path sk in
+    subs <> [] ->
+    record_matches find_at cfg env (m_buf m) (m_rs m) (m_re m) = Some subs /\
+    w_out (impl_sink cfg env path sk w) = w_out (write_search_prelude cfg env path w) ++ concat recs /\
+    length recs = list_sum (map (fun x => let n := lines_touched (block_lines env sk) x in
+                                          if st_per_match_one_line cfg then Nat.min 1 n else n) subs) /\
+    (st_per_match_one_line cfg = true -> Forall (fun x => ~ TouchesNoLine env sk x) subs ->
+     length recs = nsub find_at env m).
+Proof. exact per_match_multi_line_event. Qed.
+Print Assumptions per_match_multi_line_event_records.
+
+(* OBSERVATION OUTSIDE THE PROPERTY (C10's statement does not name --vimgrep; this refutes a natural
+   reading "one --vimgrep record per submatch under -U", not the property; not a known finding)
+   MultiLinePerMatchDropsEmptyMatchAtLineStart: an empty match at the very start of a line
+   of a multi-line block gets no --vimgrep record (`line.start() >= m.end()` breaks the loop before the
+   first line), although --count-matches / JSON count it and the line-oriented --vimgrep prints it.
+   witness: block "ab\n", empty matches at 0, 1, 2: 3 submatches, records only for columns 2 and 3.
+   replay: printf 'abc\nde\n' | rg -U --vimgrep '(?:x|\n)*'  (5 records, --count-matches says 6) *)
+Definition empties_find (hay : bytes) (p : nat) : option (nat * nat) :=
+  if Nat.leb p (length hay) then Some (p, p) else None.
+Definition ab_match : sink_match := mkSM [97; 98; 10]%N 0 3 (Some 1) 0.
+Definition cfg_vimgrep : stdconfig := mkStd false false false true true None true false false None None [58]%N [45]%N None.
+Theorem per_match_multi_line_one_record_per_submatch_refuted :
+  exists find_at env cfg m,
+    e_multi env = true /\ st_per_match cfg = true /\ st_per_match_one_line cfg = true /\
+    nsub find_at env m = 3 /\
+    option_map (fun r => w_out (sd_wtr (fst r)))
+      (standard_matched find_at cfg env m (standard_sink cfg None w_new))
+    = Some [49; 58; 50; 58; 97; 98; 10;  49; 58; 51; 58; 97; 98; 10]%N.      (* "1:2:ab\n1:3:ab\n" *)
+Proof. exists empties_find, ml_env, cfg_vimgrep, ab_match. vm_compute. repeat split; reflexivity. Qed.
+Print Assumptions per_match_multi_line_one_record_per_submatch_refuted.
+
+(* who is in the two classes: an empty submatch never gets a multi-line -o record; a non-empty submatch
+   that starts inside the block always gets a --vimgrep record (only empty ones can be dropped) *)
+Theorem empty_submatch_is_dropped_by_only_matching :
+  forall env sk m, snd m <= fst m -> OnlyTerminatorsOrEmpty env sk m.
+Proof. exact empty_submatch_has_no_piece. Qed.
+Print Assumptions empty_submatch_is_dropped_by_only_matching.
+
+Theorem nonempty_submatch_gets_a_per_match_record :
+  forall env sk m, fst m < snd m -> fst m < length (k_bytes sk) -> ~ TouchesNoLine env sk m.
+Proof. exact nonempty_submatch_touches_a_line. Qed.
+Print Assumptions nonempty_submatch_gets_a_per_match_record.
+Example nonempty_submatch_example :
+  ~ TouchesNoLine ml_env two_line_sunk (2, 5) /\ OnlyTerminatorsOrEmpty ml_env two_line_sunk (3, 3)
+  /\ OnlyTerminatorsOrEmpty ml_env two_line_sunk (3, 4) /\ TouchesNoLine ml_env two_line_sunk (4, 4).
+Proof. vm_compute. repeat split; try reflexivity. discriminate. Qed.
+
+(* ... and a submatch that is plain — non-empty, inside the block, without a terminator byte, not starting
+   with a CR under --crlf — has content on exactly one line, so it gets exactly one record; hence for an
+   event all of whose submatches are plain the number of multi-line -o records IS its number of submatches
+   (its share of count_submatches = --count-matches = JSON submatches, theorem 5) *)
+Theorem plain_submatch_gets_exactly_one_only_matching_record :
+  forall env sk m,
+    fst m < snd m -> snd m <= length (k_bytes sk) ->
+    (forall p, fst m <= p < snd m -> nth_error (k_bytes sk) p <> Some (lt_byte (e_lt env))) ->
+    (e_lt env = LTCrlf -> nth_error (k_bytes sk) (fst m) <> Some 13%N) ->
+    pieces_of env sk (block_lines env sk) m = 1.
+Proof. exact plain_submatch_has_one_piece. Qed.
+Print Assumptions plain_submatch_gets_exactly_one_only_matching_record.
+
+Theorem only_matching_multi_line_count_is_count_submatches :
+  forall find_at cfg env path m l,
+    e_multi env = true -> st_only_matching cfg = true ->
+    range_ok find_at env (m_buf m) (m_re m) ->
+    successive find_at env (m_buf m) (m_rs m) (m_re m) = Some l ->
+    let subs := submatches_of (m_buf m) (m_rs m) (m_re m) l in
+    let sk := sunk_of m subs in
+    subs <> [] -> Forall (plain_submatch env (m_bytes m)) subs ->
+    length (om_block_records cfg env path sk (block_lines env sk) 0) = nsub find_at env m.
+Proof. exact only_matching_multi_line_plain_event. Qed.
+Print Assumptions only_matching_multi_line_count_is_count_submatches.
+
+(* non-vacuity: "aXaXa\nb\na\n" block of theorem 8, pattern a: three plain submatches, three records *)
+Example plain_event_example :
+  length (om_block_records cfg_only ml_env None (sunk_of (mkSM ml_buf 0 6 (Some 1) 0) [(0, 1); (2, 3); (4, 5)])
+            (block_lines ml_env (sunk_of (mkSM ml_buf 0 6 (Some 1) 0) [(0, 1); (2, 3); (4, 5)])) 0) = 3 /\
+  nsub a_find ml_env (mkSM ml_buf 0 6 (Some 1) 0) = 3.
+Proof. vm_compute. repeat split; reflexivity. Qed.
+
+Check only_matching_multi_line_records :
+  forall cfg env path sk w,
+    st_only_matching cfg = true -> k_matches sk <> [] -> spans_ordered 0 (k_matches sk) ->
+    w_out (sink_slow_multi_line cfg env path sk w)
+    = w_out w ++ concat (om_block_records cfg env path sk (block_lines env sk) 0) /\
+    length (om_block_records cfg env path sk (block_lines env sk) 0)
+    = list_sum (map (pieces_of env sk (block_lines env sk)) (k_matches sk)).
